@@ -108,10 +108,10 @@ func TestC11History(t *testing.T) {
 		}
 		// a waiter that arrives after everything is over
 		c.WaitAtEnd = lab.Chance(t, "wait-at-end", 60)
-		if c.Engine == "v2" && len(c.StatusFailAt) > 0 && st.IsKnown("C11/plugin-left-open-after-run-ended/v2/start-during-recovery") {
-			// known finding: with a failing status write, a user Start issued while arch-v2 reports
-			// Recovering races the old run's cleanup, which then marks the pipeline Degraded over the
-			// live run; keep the search going behind it
+		if c.Engine == "v2" && st.IsKnown("C11/plugin-left-open-after-run-ended/v2/start-during-recovery") {
+			// known finding: a user Start issued while arch-v2 reports Recovering races the old
+			// run's recovery decision, which then marks the pipeline Degraded over the live run;
+			// keep the search going behind it
 			for i := range c.Client {
 				if c.Client[i].Kind == "start" {
 					c.HoldStartInRecovery = true
